@@ -5,6 +5,9 @@
 #include <streams.h>
 #include <serialize.h>
 #include <util/golombrice.h>
+#include <blockfilter.h>
+#include <fstream>
+#include <sstream>
 #include "replay_util.h"
 #define BAD(...) do { rv::g_stats.real_violations++; if (rv::g_stats.real_violations <= 8) { std::printf("REAL-VIOLATION " __VA_ARGS__); std::printf("\n"); } } while (0)
 #define DIS(...) do { rv::g_stats.disagreements++; if (rv::g_stats.disagreements <= 8) { std::printf("DISAGREE " __VA_ARGS__); std::printf("\n"); } } while (0)
@@ -25,6 +28,24 @@ static void test_golomb(rv::Rng& r)
     if (ref != bytes) BAD("GolombRiceEncode(P=%u) of %zu values differs from the reference bit string (BIP158: quotient in unary, a zero, P remainder bits)", P, xs.size());
     SpanReader sr(bytes); BitStreamReader<SpanReader> br(sr); xBR xr{bytes.data(), 0}; for (auto x : xs) { uint64_t y = GolombRiceDecode(br, P), xy = xc_GolombRiceDecode(&xr, P); if (y != xy) DIS("GolombRiceDecode"); if (y != x) BAD("GolombRiceDecode(GolombRiceEncode(%llu), P=%u) = %llu", (unsigned long long)x, P, (unsigned long long)y); }
 }
+extern "C" { uint64_t xc_GCSFilter_range_decode(uint32_t, uint32_t); uint64_t xc_GCSFilter_range_build(uint32_t, uint32_t); }
+// B2 self-test: vectors computed by engine/wp_int.py's interpreter on Python ints vs the machine (the extracted statement compiled natively)
+static void check_wp_vectors(const char* path)
+{
+    std::ifstream f(path); std::string line; uint64_t n = 0;
+    while (std::getline(f, line)) { std::istringstream is(line); std::string fn, arrow; unsigned long long a, b, out; if (!(is >> fn >> a >> b >> arrow >> out)) continue; n++; rv::g_stats.inputs++;
+        uint64_t real = fn == "GCSFilter_range_decode" ? xc_GCSFilter_range_decode((uint32_t)a, (uint32_t)b) : xc_GCSFilter_range_build((uint32_t)a, (uint32_t)b); if (real != out) DIS("wp_int interpreter: %s(%llu, %llu) = %llu, machine = %llu", fn.c_str(), a, b, out, (unsigned long long)real); }
+    std::printf("WPVECTORS %llu\n", (unsigned long long)n);
+}
+// a GCS filter rebuilt from its own bytes must match every element it was built from (N * M crosses 2^32 at N = 5472 for the BASIC parameters)
+static void test_gcs_reload(size_t N, rv::Rng& r)
+{
+    GCSFilter::ElementSet els; while (els.size() < N) { GCSFilter::Element e(8 + r.below(24)); for (auto& c : e) c = (unsigned char)r.next(); els.insert(e); }
+    GCSFilter::Params params{r.next(), r.next(), 19, 784931}; GCSFilter built(params, els); GCSFilter reloaded(params, built.GetEncoded(), r.below(2)); rv::g_stats.inputs++;
+    size_t miss_b = 0, miss_r = 0; for (const auto& e : els) { if (!built.Match(e)) miss_b++; if (!reloaded.Match(e)) miss_r++; }
+    if (miss_b) BAD("a GCS filter built from %zu elements does not match %zu of them", N, miss_b);
+    if (miss_r) BAD("a GCS filter of %zu elements decoded from its own encoding does not match %zu of them (false negatives)", N, miss_r);
+}
 int main(int argc, char** argv)
 {
     auto a = rv::parse(argc, argv); rv::Rng r(a.seed); uint64_t n = a.diff ? a.n : 3000;
@@ -42,6 +63,8 @@ int main(int argc, char** argv)
                 rv::g_stats.inputs++; if (!c) BAD("false negative: a key of %zu bytes inserted %zu inserts ago is not matched (filter of %zu bytes, %u hash functions)", kk.size(), keys.size(), after.data.size(), after.nh); } }
     }
     for (uint64_t it = 0; it < n * 4; it++) test_golomb(r);
+    { static const size_t NS[] = {0, 1, 100, 5471, 5472, 5473, 12000}; for (size_t N : NS) test_gcs_reload(N, r); }
+    if (const char* w = std::getenv("VERIF_WP_VECTORS")) check_wp_vectors(w);
     rv::report();
     return rv::g_stats.real_violations ? 1 : (rv::g_stats.disagreements ? 3 : 0);
 }
